@@ -259,10 +259,17 @@ pub fn string_programs() -> Vec<Program> {
             Op::Root { slot: 0, name: format!("r{k}"), trace: U128(0x66), remote_parent: 0, sampled: true, props: kv() },
             Op::AddProps { slot: 0, props: kv() },
             Op::AddEvent { slot: 0, name: format!("ev{v}"), props: kv() },
+            Op::AddEvent { slot: 0, name: format!("dep.ev{v}"), props: kv() },
+            Op::AddProps { slot: 0, props: vec![(k.to_string(), format!("single{i}"))] },
+            Op::AddEvent { slot: 0, name: format!("ev1{v}"), props: vec![(k.to_string(), format!("one{i}"))] },
             scope(0),
             Op::LocalEnter { name: format!("l{k}"), props: kv() },
             Op::LocalAddProps { props: kv() },
             Op::LocalAddEvent { name: format!("le{v}"), props: kv() },
+            Op::LocalAddEvent { name: format!("dep.le{v}"), props: kv() },
+            Op::LocalAddProps { props: vec![(k.to_string(), format!("lsingle{i}"))] },
+            Op::LocalEnter { name: format!("l1{k}"), props: vec![(k.to_string(), format!("lone{i}"))] },
+            pop(),
             pop(),
             Op::LocalAddProps { props: kv() },
             Op::LocalAddEvent { name: format!("le2{v}"), props: kv() },
